@@ -219,6 +219,56 @@ theorem runWorld_bind (g : List Nat) :
               stepAll_bindAll hq fs hl, map_reqOf_bindAll hq fs hl, ih2]
             rfl
 
+/-! ### successful runs: nobody leaves early -/
+
+theorem map_reqOf_of_reqsOf {ps : List (Prog R)} {qs : List Req} (h : reqsOf ps = some qs) :
+    ps.map reqOf = qs.map some := by
+  induction ps generalizing qs with
+  | nil => simp only [reqsOf, Option.some.injEq] at h; subst h; rfl
+  | cons p ps ih =>
+    cases p with
+    | done a => simp [reqsOf] at h
+    | fail e => simp [reqsOf] at h
+    | coll q k =>
+      simp only [reqsOf, Option.map_eq_some_iff] at h
+      obtain ⟨qs', h', rfl⟩ := h
+      simp [reqOf, ih h']
+
+/-- in a run that ends `.ok`, every round is a complete rendezvous: every member sits at a
+    collective (nobody has returned or raised while the others wait). -/
+theorem rounds_complete_of_ok (g : List Nat) :
+    ∀ (m : Prog R) (ms : List (Prog R)) (as : List R), (runWorld g m ms).out = .ok as →
+      ∀ r ∈ (runWorld g m ms).rounds, ∀ x ∈ r, x ≠ none := by
+  intro m
+  induction m with
+  | done a =>
+    intro ms as h
+    cases hd : dones ms with
+    | none => simp [runWorld, hd] at h
+    | some rs => simp [runWorld, hd]
+  | fail e => intro ms as h; simp [runWorld] at h
+  | coll q k ih =>
+    intro ms as h
+    cases hq : reqsOf ms with
+    | none => simp [runWorld, hq] at h
+    | some qs =>
+      cases hx : exchange g (q :: qs) with
+      | error e => simp [runWorld, hq, hx] at h
+      | ok resps =>
+        cases resps with
+        | nil => simp [runWorld, hq, hx] at h
+        | cons r rs =>
+          rw [runWorld_coll_out g q k ms qs r rs hq hx] at h
+          rw [runWorld_coll_rounds g q k ms qs r rs hq hx]
+          intro rd hrd
+          rcases List.mem_cons.mp hrd with rfl | hrd
+          · intro x hx'
+            rw [map_reqOf_of_reqsOf hq] at hx'
+            rcases List.mem_cons.mp hx' with rfl | hx'
+            · simp
+            · obtain ⟨q', _, rfl⟩ := List.mem_map.mp hx'; simp
+          · exact ih r _ as h rd hrd
+
 end TE.Sync
 
 namespace TE.Sync
